@@ -22,6 +22,7 @@ FILE* g_out = stdout;
 struct Obs
 {
     size_t                        size{0};
+    size_t                        size2{0};
     bool                          empty{true};
     size_t                        cap{0};
     std::vector<std::array<long, 3>> obs;
@@ -94,6 +95,8 @@ struct Session
             o.size  = c->size();
             o.empty = c->empty();
         }
+        // size() once more after the projection's own lookups: what the next call will start from
+        o.size2 = c->size();
         return o;
     }
 };
@@ -137,7 +140,7 @@ void emit(
     s << "{\"e\":\"op\",\"op\":\"" << op << "\",\"k\":" << k << ",\"v\":" << v << ",\"a\":" << a << ",\"d\":" << d
       << ",\"p\":" << p << ",\"var\":" << var << ",\"kv\":" << jl(kv) << ",\"now\":" << g_now_ms.load()
       << ",\"ret\":" << ret << ",\"rc\":" << rc << ",\"rl\":" << jl(rl) << ",\"size\":" << o.size
-      << ",\"empty\":" << (o.empty ? 1 : 0) << ",\"cap\":" << o.cap << ",\"obs\":[";
+      << ",\"size2\":" << o.size2 << ",\"empty\":" << (o.empty ? 1 : 0) << ",\"cap\":" << o.cap << ",\"obs\":[";
     for (size_t i = 0; i < o.obs.size(); ++i)
         s << (i ? "," : "") << "[" << o.obs[i][0] << "," << o.obs[i][1] << "," << o.obs[i][2] << "]";
     s << "],\"skip\":[";
